@@ -30,13 +30,13 @@ META = {
 KAD_FIELDS = ("ev", "caller", "key", "quorum", "target", "isreg", "eh", "q", "p", "c", "k")
 KAD_EV = ("Call", "Cancel", "Found", "Finished", "NotFound", "QuorumFailed", "Timeout")
 
-# Scenario classes that are off by default (each is expected to fail on a tree that has the corresponding
-# suspected defect; see the builder's report).  Switched on by setting the variable to 1.
+# Scenario classes that can be switched OFF by setting the variable to 0 (each failed on the tree before the repairs
+# e7b3363 / 72698cf in /repo; they are on by default since).
 #   VERIF_ENABLE_C05_CANCEL    callers that drop their receiver while other callers share the query
 #   VERIF_ENABLE_C05_FOREIGN   client-side split cases with a register of another base / a foreign owner's scratchpad
 #   VERIF_ENABLE_C05_TXNBYTES  byte comparison (not only value comparison) of merged transaction records across runs
 def enabled(name):
-    return os.environ.get("VERIF_ENABLE_C05_" + name) == "1"
+    return os.environ.get("VERIF_ENABLE_C05_" + name, "1") != "0"
 
 
 
@@ -160,7 +160,7 @@ def run(prop, tier, replay=None):
     v.cov["distinct_nontrivial"] = len(distinct)
     v.cov["traces_validated_against_impl"] = sum(1 for e in events if e["ev"] == "Reset")
     v.cov["rule"] = ("a case is one step on the real code: a GetNetworkRecord command or synthetic kad event handled by the real SwarmDriver (TLC-simulated behaviour, or driver-random "
-                     "behaviour over 18 contents x 8 peers x up to 4 callers), or one get_record_from_network call group (a split presented under every iteration order of the result map, "
+                     "behaviour over 21 contents x 8 peers x up to 4 callers), or one get_record_from_network call group (a split presented under every iteration order of the result map, "
                      "or a read with retries); non-trivial = a Call, a step that delivered an outcome, or a client-side case; distinct = distinct (step, arguments, attachment, "
                      "delivered outcomes, pending view) resp. (versions, target, answers, results)")
     first_run = [{k: e.get(k, 0) for k in KAD_FIELDS + ("att", "dl", "pq")} for e in events[1:starts.get(1, 0) + 12] if e["ev"] in KAD_EV][:8]
@@ -169,8 +169,13 @@ def run(prop, tier, replay=None):
     v.cov["impl_stats"] = rep.get("stats")
     v.cov["exhaustive"] = False
     v.assumptions = ["replies reach the handlers as libp2p OutboundQueryProgressed events; libp2p itself (which peers are asked, when it reports Finished / Timeout) is not exercised",
-                     "callers keep their receiving end until they got an outcome (a caller that cancels its read is outside the statement's quantifier)",
-                     "contents: 3 chunks, 4 registers (one unverifiable), 5 scratchpads (equal counters, one forged), 5 transaction records (one undecodable), junk; GetRecordCfg.is_register and expected_holders are not varied",
-                     "exhaustive model run: quick = 1 caller with <= 5 replies or 2 callers with <= 3 replies, 5 interchangeable peers, 3 contents, <= 1 foreign-key reply, <= 1 repeated reply, <= 1 late event; "
+                     ("callers that give up (drop their receiver) while others share their query: scenario class %s (VERIF_ENABLE_C05_CANCEL); the model always explores it" % ("ON" if enabled("CANCEL") else "OFF: callers keep their receiving end until they got an outcome")),
+                     ("client-side split cases with a valid register of another base / a validly signed scratchpad of a foreign owner: scenario class %s (VERIF_ENABLE_C05_FOREIGN); "
+                      "byte comparison of merged transaction records across runs: %s (VERIF_ENABLE_C05_TXNBYTES); merged registers / scratchpads are always compared byte-wise"
+                      % ("ON" if enabled("FOREIGN") else "OFF", "ON" if enabled("TXNBYTES") else "OFF")),
+                     "contents: 3 chunks, 6 registers (one unverifiable, R1 in two serialisations, one of another base), 6 scratchpads (equal counters, one forged, one of a foreign owner), 5 transaction records (one undecodable), junk; "
+                     "GetRecordCfg.is_register (both values, targets R1 / R1' / R3 / other base / chunk) and expected_holders (none / containing / not containing the replying peers) are varied in simulation, "
+                     "in the driver's register_runs and random runs; the exhaustive model run varies is_register of the second caller only",
+                     "exhaustive model run: quick = 1 caller with <= 5 replies or 2 callers with <= 3 replies (<= 2 replies and no repeated / foreign-key / late event once a caller has given up), 5 interchangeable peers, 3 contents, <= 1 foreign-key reply, <= 1 repeated reply, <= 1 late event; "
                      "client-side: every version set of size 2-3 (thorough 2-4) under every iteration order; deeper behaviours by TLC simulation and the driver's random generator"]
     return v.finish()
